@@ -31,11 +31,12 @@ theorem list_segments : listPrefix = ["strings.HasPrefix(name, \"hybrid_\")"] :=
 /-- `initCounter`: every file name with a `_` counts, orphans included -/
 theorem counter_init : counterConds = ["strings.Contains(name, \"_\")", "id > maxSegmentID"] := by decide
 
-/-- `openAll` then `readAll`: all four files are opened (in this order) before the one ReadFrom -/
+/-- `openAll` then `readAll`: all four files are opened (in this order) before the one ReadFrom;
+    the MultiReader is drained afterwards (`readAll … [] = (!prevCut, T)`), before the index is cached -/
 theorem get_index : getIndexOps =
     ["NewHybridSearchIndex(vecIdx, txtIdx, metaIdx)", "os.Open(s.hybridPath)", "os.Open(s.vectorPath)",
      "os.Open(s.textPath)", "os.Open(s.metadataPath)", "readerFrom.ReadFrom(combinedReader)",
-     "s.cachedIndex = idx"] := by decide
+     "io.Copy(io.Discard, combinedReader)", "s.cachedIndex = idx"] := by decide
 
 /-- the compaction registers the merged segment only after it is completely written, and deletes
     sources only after that -/
